@@ -105,6 +105,10 @@ addrxlat2kdump(kdump_ctx_t *ctx, addrxlat_status status)
 		ret = -status;
 	else if (status == ADDRXLAT_ERR_NODATA)
 		ret = KDUMP_ERR_NODATA;
+	else if (status == ADDRXLAT_ERR_NOMEM)
+		/* not a property of the dump: callers that tolerate an
+		 * unusable translation must not swallow this one */
+		ret = KDUMP_ERR_SYSTEM;
 	else
 		ret = KDUMP_ERR_ADDRXLAT;
 
